@@ -57,6 +57,8 @@ def names():
               "hassubset", "concat", "date"]:
         near.add(((), n.upper()))
         near.add(((), n.capitalize()))
+        near.add(((), n[0].upper() + n[1:]))
+        near.add(((), n.swapcase()))
         near.add(((), n + "s"))
         near.add(((), n[:-1]))
         near.add(((), "_" + n))
